@@ -146,6 +146,16 @@ pub fn check_pure(ctx: &Ctx, c: &Case, hdrs: &[(String, String)], case_seed: u64
                     );
                     return;
                 }
+                if matches!(r.framing, httpc::Framing::Chunked(_)) && c.version <= (1, 0) {
+                    fail(
+                        "C04/chunked-for-http10-client",
+                        format!(
+                            "the response to an HTTP/{}.{} request is framed with Transfer-Encoding: chunked, which such a client cannot delimit",
+                            c.version.0, c.version.1
+                        ),
+                    );
+                    return;
+                }
                 match &r.framing {
                     httpc::Framing::Chunked(_) => rep.inc("chunked"),
                     httpc::Framing::ContentLength(_) => {
